@@ -250,10 +250,28 @@ func HarnessC02(fam, nT, nV, convCode, form, sv, mode int) {
 		}
 	}
 	vnOnDivergence("C02.diverged-instead-of-refusing", w.classifyDivergence())
-	r, built, panicked, _ := w.hCall()
-	if !built {
+	args, okb := w.hBuildAll()
+	if !okb {
 		vnAssume(false)
 	}
+	// symbolically, the same target was called successfully before with a complete
+	// set of exactly matching values: nothing of that call may satisfy this one
+	if vnBool("priorCall") {
+		var full []Arg
+		for i, p := range w.Target.In {
+			t := p.T
+			if t == hTI {
+				t = hTP2
+			}
+			full = append(full, NamedSubtype(p.Name, hMk(t, vnPayload("prior", i)), p.Sub))
+		}
+		hGuardPlain(func() { w.Funcs[0].Call(full...) })
+		vnNoteAppend(" [after a complete earlier call]")
+		w.Log = nil
+	}
+	var r Result
+	panicked := hGuardPlain(func() { r = w.Funcs[0].Call(args...) })
+	vnTrace(fmt.Sprintf("outcome=%d", hOutcome(r, panicked)))
 	vnCover("C02.underivable-world")
 	if panicked {
 		return // C06's subject
